@@ -12,7 +12,7 @@ theorem count_running_notifyAll (pcs : List Pc) :
   induction pcs with
   | nil => rfl
   | cons p ps ih =>
-    cases p <;> simp_all [notifyAll, List.count_cons]
+    cases p <;> simp_all [notifyAll]
 
 theorem not_parkedFalse_mem_notifyAll (pcs : List Pc) : Pc.parked false ∉ notifyAll pcs := by
   induction pcs with
